@@ -286,11 +286,33 @@ Section DOp.
   Lemma is_coeff_number x : is_coeff x = true -> is_number x = true.
   Proof. destruct x as [| a | | | |]; try discriminate; auto. Qed.
 
+  Lemma sev_pow_base b b' x : sev b' = sev b -> sev (SPow b' x) = sev (SPow b x).
+  Proof.
+    intros H. destruct (is_intlit x) eqn:Ei.
+    - destruct x as [p q| | | | |]; try discriminate. destruct q; try discriminate.
+      destruct p as [|p|p].
+      + reflexivity.
+      + change (pw S (sev b') (Npos p) = pw S (sev b) (Npos p)). now rewrite H.
+      + change (finv S (pw S (sev b') (Npos p)) = finv S (pw S (sev b) (Npos p))). now rewrite H.
+    - rewrite !(sev_pow_general _ x Ei). now rewrite H.
+  Qed.
+
+  Lemma sev_ssimp e : sev (ssimp e) = sev e.
+  Proof.
+    induction e as [p q|a|l IHl|l IHl|b x IHb IHx|f a IHa] using sx_ind'; try reflexivity.
+    - cbn [ssimp]. rewrite sev_sadd, sev_add, map_map. f_equal.
+      induction IHl as [|y r Hy _ IHr]; simpl; auto. now rewrite Hy, IHr.
+    - cbn [ssimp]. rewrite sev_smul, sev_mul, map_map. f_equal.
+      induction IHl as [|y r Hy _ IHr]; simpl; auto. now rewrite Hy, IHr.
+    - cbn [ssimp]. now apply sev_pow_base.
+    - cbn [ssimp]. change (E S f (sev (ssimp a)) = E S f (sev a)). now rewrite IHa.
+  Qed.
+
   (* ------------------------------------------------------------------ sdiff, atoms *)
   Lemma sdiff_sound lg i e e' : sdiff lg i e = Some e' -> sdf e -> sev e' = Dd lg i (sev e).
   Proof.
     unfold sdiff. intros H Hs. destruct (tD lg i (sx2t e)) as [t'|] eqn:Et; [|discriminate].
-    inversion H. rewrite ev_t2s. apply ev_tD; auto. now apply sdf_dfd.
+    inversion H. rewrite sev_ssimp, ev_t2s. apply ev_tD; auto. now apply sdf_dfd.
   Qed.
 
   Lemma dop_atom_tD lg i a e' : dop_atom lg i a = Some e' -> tD lg i (TAt a) = Some (sx2t e').
